@@ -3,13 +3,13 @@ from props import gocommon
 from props.c06 import tsrc
 
 THEOREMS = ["Folang.Props.C07." + t for t in """lookup_frame register_swap register_perm drop_unreferenced split_files
-encodedKey_collision typeinfo_frame_partial fact_fcGlobals""".split()]
+unfixed_key_collision fixed_no_collision split_unique joinWith_inj encodedKey_inj typeinfo_frame typeinfo_frame_partial fact_fcGlobals""".split()]
 
 ASSUMPTIONS = [
     "PARTIAL: the state a definition can read (root scope dictionaries of the single ParseState, the two process-global type-info dictionaries keyed by encodedKey, uniqueId) is modelled as finite maps; frame / commutation / file-splitting theorems are about these maps; the per-definition translation itself is abstract",
     "that the translation reads the state only through these lookups is tied by metamorphic runs of the real compiler in-process (swap two independent groups of definitions, drop one, insert an unrelated record+function, cut into three files in dependency order): per-declaration Go text compared after renumbering _vN by first occurrence",
     "regenerated fact: the package-level variables of fc are exactly the modelled ones (a new global fails the obligation)",
-    "known finding D14: encodedKey is not injective (A<B_C> vs A_B<C>)",
+    "defect D14 (the type-info key name_arg_arg was not injective: A<B_C> vs A_B<C>) is repaired in c59ed89 (key name<arg,arg>): encodedKey_inj proves injectivity for names without < and non-empty argument texts without a comma; typeinfo_frame is then unconditional for such instances; argument texts that contain a comma (tuples, function types) rely on balanced brackets, not proved; corpus/C07/d14_key_collision.fo is the regression program",
 ]
 
 
@@ -56,7 +56,7 @@ def run(ctx):
         ctx.broken.append("binary:naming")
         ctx.direct.append({"kind": "file naming / cross-file visibility", "files": files, "expected": want, "stdout": p.stdout[-500:]})
     shutil.rmtree(d, ignore_errors=True)
-    # known finding D14
+    # defect D14 (repaired): must not return
     base = os.path.join(vlib.VERIF, "corpus", "C07", "d14_key_collision")
     res = tsrc(fcdrv, [base + ".fo", base + ".base.fo"])
     kf = {k["id"]: k for k in ctx.known_findings()}
